@@ -37,10 +37,13 @@ def mc_timed(maxnow=14, conns=2, msgs=3, passive=False, alphabet=("open3", "ka",
     return t + (inv,) if reach else t
 
 
+# unbounded time, real constants: the ladder's rule as an inductive invariant of Damp.tla (shares DampFn!NextDelay with CoreBGP.tla)
+AP_DAMP = ("apalache", "Damp", [("Init", "IndInv", 0), ("IndInit", "IndInv", 1)])
+
 # the hold-down ladder reaches its cap and the amnesia reset (passive peer, one NOTIFICATION per connection): 5 s each
 MC_DAMP = [mc_timed(26, 2, 1, True, ("notif",)), mc_timed(14, 3, 1, True, ("notif",)),
            mc_timed(14, 3, 1, True, ("notif",), inv="NeverMax", reach=True),
-           mc_timed(26, 2, 1, True, ("notif",), inv="NeverAmnesia", reach=True)]
+           mc_timed(26, 2, 1, True, ("notif",), inv="NeverAmnesia", reach=True), AP_DAMP]
 
 
 def mc_live_in(workers=4, timeout=1200):
